@@ -22,8 +22,12 @@ def scan(repo):
                 for a in n.names:
                     imported.add((a.asname or a.name).split('.')[0])
 
+        cls_alias = set()
+
         def is_class_expr(v):
             src = ast.unparse(v)
+            if isinstance(v, ast.Name) and v.id in cls_alias:
+                return True
             if isinstance(v, ast.Name) and (v.id in classes or v.id == 'cls' or (v.id in imported and v.id[:1].isupper())):
                 return True
             if src.startswith('type(') or (isinstance(v, ast.Attribute) and v.attr == '__class__'):
@@ -37,9 +41,15 @@ def scan(repo):
             for ch in ast.iter_child_nodes(node):
                 if isinstance(ch, (ast.FunctionDef, ast.AsyncFunctionDef)):
                     g = set()
+                    cls_alias.clear()
                     for x in ast.walk(ch):
                         if isinstance(x, ast.Global):
                             g |= set(x.names)
+                        # local alias of the class:  tself = type(self)
+                        if isinstance(x, ast.Assign) and len(x.targets) == 1 and isinstance(x.targets[0], ast.Name) and \
+                                ((isinstance(x.value, ast.Call) and isinstance(x.value.func, ast.Name) and x.value.func.id == 'type'
+                                  and len(x.value.args) == 1) or (isinstance(x.value, ast.Attribute) and x.value.attr == '__class__')):
+                            cls_alias.add(x.targets[0].id)
                     visit(ch, qual + [ch.name], True, g, {})
                 elif isinstance(ch, ast.ClassDef):
                     visit(ch, qual + [ch.name], infunc, globs, aliases)
